@@ -162,4 +162,37 @@ def c06(tier):
                    need_tags=("ref-count>=2", "hashed-child", "embedded-child"))
 
 
-CHECKS = {"C01": c01, "C02": c02, "C04": c04, "C05": c05, "C06": c06}
+def c07(tier):
+    inv = ["RetryConverges", "NoWriteBeforeRead", "TraverseTruth", "GetSameAsComplete", "MapRefinement",
+           "EmitStC07"]
+    pr = ["FailedCallUnchanged", "ReportedTruth"]
+    base = dict(keys="KFaults", look="LFaults", vals="VFaults", features="FFaults", maxlost=2,
+                invariants=inv, properties=pr, view="ViewFaults")
+    return generic("C07", tier,
+                   [dict(base, level=5, features="FFaultsDirect"),
+                    dict(base, level=5, prune="OnlyPrune", keys="KFaults3", maxlive=2, maxbatch=1)],
+                   [dict(base, level=6, maxlost=3), dict(base, level=5, vals="VQuick")],
+                   modes=("faults",), ntr=(150, 2000),
+                   need_tags=("missing-node-outcome", "incomplete-database", "calls:traverse:missing"))
+
+
+def c08(tier):
+    inv = ["TraverseMatchesCanon", "TraverseFromAgrees", "RootNodeIsTraverseEmpty", "EmitStC08"]
+    base = dict(features="FDirect", invariants=inv, emit=None)
+    return generic("C08", tier,
+                   [dict(base, level=5)],
+                   [dict(base, level=6, keys="KFull", look="LFull", vals="VQuick", maxlive=4)],
+                   modes=(), need_tags=("has-extension", "has-branch", "embedded-child", "hashed-child"))
+
+
+def c03(tier):
+    inv = ["ProofComplete", "ProofOnPath", "ProofSound", "EmitStC03"]
+    base = dict(features="FDirect", invariants=inv, emit=None, prune="OnlyNoPrune")
+    return generic("C03", tier,
+                   [dict(base, level=4)],
+                   [dict(base, level=5, keys="KFull", look="LFull", vals="VQuick", maxlive=4),
+                    dict(base, level=5, prune="OnlyPrune")],
+                   modes=(), need_tags=("has-extension", "has-branch", "embedded-child", "hashed-child"))
+
+
+CHECKS = {"C01": c01, "C03": c03, "C07": c07, "C08": c08, "C02": c02, "C04": c04, "C05": c05, "C06": c06}
